@@ -45,8 +45,9 @@ theorem segments_preserve (s : S) (nx : Option Ev) (h : Inv s) :
   intro seg hseg
   unfold segments at hseg
   simp only [List.mem_append] at hseg
-  rcases hseg with hp | ha
+  rcases hseg with (hp | ha) | ho
   · -- pump segments
+    unfold pumpSegs at hp
     cases hpc : s.pump with
     | idle =>
       simp only [hpc, List.mem_singleton] at hp; subst hp
@@ -99,9 +100,11 @@ theorem segments_preserve (s : S) (nx : Option Ev) (h : Inv s) :
     | exited => simp [hpc] at hp
   · -- app segments
     obtain ⟨⟨h1, h2, h3, h4, h5, h6, h7⟩, h8⟩ := h
+    unfold appSegs at ha
     cases hap : s.app with
     | idle =>
       simp only [hap, List.mem_singleton] at ha
+      unfold popSeg at ha
       cases hq : s.q with
       | nil =>
         simp only [hq] at ha; subst ha
@@ -114,25 +117,340 @@ theorem segments_preserve (s : S) (nx : Option Ev) (h : Inv s) :
         · simp only [hpa] at ha; subst ha
           refine ⟨⟨?_, ?_, ?_, ?_, ?_, ?_, ?_⟩, ?_⟩ <;> simp_all <;> omega
     | waiting =>
-      simp only [hap] at ha
-      split at ha
-      · rename_i hres
-        simp only [List.mem_singleton] at ha
-        cases hq : s.q with
-        | nil =>
-          simp only [hq] at ha; subst ha
-          refine ⟨⟨?_, ?_, ?_, ?_, ?_, ?_, ?_⟩, ?_⟩ <;> simp_all
-        | cons m rest =>
-          simp only [hq] at ha
-          by_cases hpa : s.putWAttr = true
-          · simp only [hpa, if_true] at ha; subst ha
-            refine ⟨⟨?_, ?_, ?_, ?_, ?_, ?_, ?_⟩, ?_⟩ <;> simp_all <;> omega
-          · simp only [hpa] at ha; subst ha
-            refine ⟨⟨?_, ?_, ?_, ?_, ?_, ?_, ?_⟩, ?_⟩ <;> simp_all <;> omega
+      simp only [hap, List.mem_append, List.mem_singleton] at ha
+      rcases ha with ha | ha
       · split at ha
-        · simp only [List.mem_singleton] at ha; subst ha
-          refine ⟨⟨?_, ?_, ?_, ?_, ?_, ?_, ?_⟩, ?_⟩ <;> simp_all
-        · simp at ha
+        · rename_i hres
+          simp only [List.mem_singleton] at ha
+          unfold popSeg at ha
+          cases hq : s.q with
+          | nil =>
+            simp only [hq] at ha; subst ha
+            refine ⟨⟨?_, ?_, ?_, ?_, ?_, ?_, ?_⟩, ?_⟩ <;> simp_all
+          | cons m rest =>
+            simp only [hq] at ha
+            by_cases hpa : s.putWAttr = true
+            · simp only [hpa, if_true] at ha; subst ha
+              refine ⟨⟨?_, ?_, ?_, ?_, ?_, ?_, ?_⟩, ?_⟩ <;> simp_all <;> omega
+            · simp only [hpa] at ha; subst ha
+              refine ⟨⟨?_, ?_, ?_, ?_, ?_, ?_, ?_⟩, ?_⟩ <;> simp_all <;> omega
+        · split at ha
+          · simp only [List.mem_singleton] at ha; subst ha
+            refine ⟨⟨?_, ?_, ?_, ?_, ?_, ?_, ?_⟩, ?_⟩ <;> simp_all
+          · simp at ha
+      · -- the parked task is cancelled
+        subst ha
+        refine ⟨⟨?_, ?_, ?_, ?_, ?_, ?_, ?_⟩, ?_⟩ <;> simp_all
+  · -- `_send` and `stop()`
+    obtain ⟨⟨h1, h2, h3, h4, h5, h6, h7⟩, h8⟩ := h
+    unfold otherSegs at ho
+    simp only [List.mem_cons, List.mem_nil_iff, or_false] at ho
+    rcases ho with ho | ho
+    · subst ho
+      exact ⟨⟨h1, h2, h3, h4, h5, h6, h7⟩, h8⟩
+    · subst ho
+      refine ⟨⟨?_, ?_, ?_, ?_, ?_, ?_, ?_⟩, ?_⟩ <;> simp_all
 
 #print axioms segments_preserve
+/-! ### FIFO, lossless, once: every segment conserves `returned ++ held = held ++ delivered` -/
+
+theorem returned_append (a b : List Ev) : returned (a ++ b) = returned a ++ returned b := by
+  induction a with
+  | nil => rfl
+  | cons e r ih => cases e <;> simp [returned, ih]
+
+theorem delivered_append (a b : List Ev) : delivered (a ++ b) = delivered a ++ delivered b := by
+  induction a with
+  | nil => rfl
+  | cons e r ih => cases e <;> simp [delivered, ih]
+
+theorem pumpEnqueue_conserve (s : S) (m : Nat) :
+    returned (pumpEnqueue s m).1 = [] ∧ delivered (pumpEnqueue s m).1 = [] ∧
+    (pumpEnqueue s m).2.q = s.q ++ [m] ∧
+    ((pumpEnqueue s m).2.pump = .pulling ∨ (pumpEnqueue s m).2.pump = .exited) := by
+  unfold pumpEnqueue
+  by_cases hp : s.popWAttr = true <;> by_cases hd : s.disc = true <;> simp [hp, hd, returned, delivered]
+
+theorem pumpEnqueue_held (s0 : S) (m : Nat) (base : List Nat) (hb : base = s0.q ++ [m]) :
+    returned (pumpEnqueue s0 m).1 ++ held (pumpEnqueue s0 m).2 = base ++ delivered (pumpEnqueue s0 m).1 := by
+  obtain ⟨c1, c2, c3, c4⟩ := pumpEnqueue_conserve s0 m
+  rw [c1, c2, hb]
+  unfold held
+  rw [c3]
+  rcases c4 with c4 | c4 <;> simp [c4]
+
+theorem popSeg_conserve (s : S) (pre : List Ev) (hpre : returned pre = [] ∧ delivered pre = []) :
+    returned (popSeg s pre).1 ++ (popSeg s pre).2.q = s.q ∧ delivered (popSeg s pre).1 = [] ∧
+    (popSeg s pre).2.pump = s.pump := by
+  unfold popSeg
+  cases hq : s.q with
+  | nil => simp [returned_append, delivered_append, hpre, returned, delivered]
+  | cons m rest =>
+    by_cases hpa : s.putWAttr = true <;>
+      simp [hpa, returned_append, delivered_append, hpre, returned, delivered]
+
+theorem popSeg_held (s0 : S) (pre : List Ev) (hpre : returned pre = [] ∧ delivered pre = []) (base : List Nat)
+    (hb : base = held s0) :
+    returned (popSeg s0 pre).1 ++ held (popSeg s0 pre).2 = base ++ delivered (popSeg s0 pre).1 := by
+  obtain ⟨c1, c2, c3⟩ := popSeg_conserve s0 pre hpre
+  rw [hb]
+  unfold held
+  rw [c2, c3, ← List.append_assoc, c1]; simp
+
+/-- **C18 `segments_conserve`**: apart from `stop()` (which drops what the cancelled pump holds), every atomic segment of
+    either task keeps `returned-to-the-app ++ held-by-the-framework = held-before ++ delivered-by-the-server`, in order -/
+theorem segments_conserve (s : S) (nx : Option Ev) :
+    ∀ seg ∈ segments s nx, Ev.stop ∉ seg.1 → returned seg.1 ++ held seg.2 = held s ++ delivered seg.1 := by
+  intro seg hseg hns
+  unfold segments at hseg
+  simp only [List.mem_append] at hseg
+  rcases hseg with (hp | ha) | ho
+  · unfold pumpSegs at hp
+    cases hpc : s.pump with
+    | idle =>
+      simp only [hpc, List.mem_singleton] at hp; subst hp
+      simp [held, hpc, returned, delivered]
+    | pulling =>
+      simp only [hpc] at hp
+      split at hp
+      · simp only [List.mem_singleton] at hp; subst hp
+        simp [held, hpc, returned, delivered]
+      · simp at hp
+    | got m =>
+      simp only [hpc] at hp
+      split at hp
+      · simp only [List.mem_singleton] at hp; subst hp
+        simp [held, hpc, returned, delivered]
+      · simp only [List.mem_singleton] at hp; subst hp
+        apply pumpEnqueue_held
+        simp [held, hpc]
+    | holding m =>
+      simp only [hpc] at hp
+      split at hp
+      · split at hp
+        · simp only [List.mem_singleton] at hp; subst hp
+          simp [held, hpc, returned, delivered]
+        · simp only [List.mem_singleton] at hp; subst hp
+          apply pumpEnqueue_held
+          simp [held, hpc]
+      · simp at hp
+    | exited => simp [hpc] at hp
+  · unfold appSegs at ha
+    cases hap : s.app with
+    | idle =>
+      simp only [hap, List.mem_singleton] at ha; subst ha
+      exact popSeg_held s [Ev.recvStart] ⟨rfl, rfl⟩ _ rfl
+    | waiting =>
+      simp only [hap, List.mem_append, List.mem_singleton] at ha
+      rcases ha with ha | ha
+      · split at ha
+        · simp only [List.mem_singleton] at ha; subst ha
+          apply popSeg_held _ [] ⟨rfl, rfl⟩
+          simp [held]
+        · split at ha
+          · simp only [List.mem_singleton] at ha; subst ha
+            simp [held, returned, delivered]
+          · simp at ha
+      · subst ha
+        simp [held, returned, delivered]
+  · unfold otherSegs at ho
+    simp only [List.mem_cons, List.mem_nil_iff, or_false] at ho
+    rcases ho with ho | ho
+    · subst ho
+      by_cases hd : s.disc = true <;> simp [hd, returned, delivered]
+    · subst ho
+      simp at hns
+
+theorem isPrefix_eq (a b : List Ev) (h : isPrefix a b = true) : b = a ++ b.drop a.length := by
+  induction a generalizing b with
+  | nil => simp
+  | cons x xs ih =>
+    cases b with
+    | nil => simp [isPrefix] at h
+    | cons y ys =>
+      simp only [isPrefix, Bool.and_eq_true, decide_eq_true_eq] at h
+      obtain ⟨h1, h2⟩ := h
+      subst h1
+      simp only [List.length_cons, List.drop_succ_cons, List.cons_append, List.cons.injEq, true_and]
+      exact ih ys h2
+
+/-- **C18 `fifo_lossless_once`**: for every log that the trace-inclusion checker accepts from state `s` (no `stop()` in
+    it), what `receive()` returned, followed by what the framework still holds, is exactly what it held before followed
+    by what the server delivered — same order, nothing lost, nothing duplicated; and the invariant holds at the end. -/
+theorem fifo_lossless_once : ∀ (fuel : Nat) (s : S) (log : List Ev) (i : Nat) (s' : S),
+    accept fuel s log i = .ok s' → Ev.stop ∉ log → Inv s →
+    returned log ++ held s' = held s ++ delivered log ∧ Inv s' := by
+  intro fuel
+  induction fuel with
+  | zero => intro s log i s' h; simp [accept] at h
+  | succ n ih =>
+    intro s log i s' h hns hinv
+    cases log with
+    | nil =>
+      simp only [accept, Except.ok.injEq] at h
+      subst h
+      exact ⟨by simp [returned, delivered], hinv⟩
+    | cons e rest =>
+      simp only [accept] at h
+      split at h
+      · simp at h
+      · split at h
+        · rename_i evs s1 hfind
+          have hmem := List.mem_of_find?_eq_some hfind
+          have hpred := List.find?_some hfind
+          simp only [Bool.and_eq_true] at hpred
+          have hpre := isPrefix_eq evs (e :: rest) hpred.2
+          have hns1 : Ev.stop ∉ evs := by
+            intro hin; apply hns; rw [hpre]; exact List.mem_append_left _ hin
+          have hns2 : Ev.stop ∉ (e :: rest).drop evs.length := by
+            intro hin; apply hns; rw [hpre]; exact List.mem_append_right _ hin
+          have hc := segments_conserve s _ (evs, s1) hmem hns1
+          have hi1 := segments_preserve s _ hinv (evs, s1) hmem
+          obtain ⟨r1, r2⟩ := ih s1 _ _ s' h hns2 hi1
+          refine ⟨?_, r2⟩
+          simp only at hc
+          rw [hpre, returned_append, delivered_append, List.append_assoc, r1, ← List.append_assoc, hc,
+            List.append_assoc]
+        · simp at h
+
+/-! ### bounds -/
+
+/-- the framework never holds more than capacity + 1 events … -/
+theorem held_le_capacity_succ (s : S) (h : Inv s) : (held s).length ≤ s.cap + 1 := by
+  have := h.q_le
+  unfold held
+  cases s.pump <;> simp <;> omega
+
+/-- … and it holds capacity + 1 only with the queue full and exactly one event in flight in the pump (F13) -/
+theorem held_succ_only_when_full (s : S) (h : Inv s) (hh : (held s).length = s.cap + 1) :
+    s.q.length = s.cap ∧ ((∃ m, s.pump = .got m) ∨ (∃ m, s.pump = .holding m)) := by
+  have := h.q_le
+  unfold held at hh
+  cases hp : s.pump <;> simp [hp] at hh <;> first | omega | (refine ⟨by omega, ?_⟩; simp)
+
+def heldAfter (cap : Nat) (log : List Ev) : Option Nat :=
+  match accept (4 * log.length + 8) { cap := cap } log 0 with
+  | .ok s => some (held s).length
+  | .error _ => none
+
+/-- F13 (known finding): the literal bound "held ≤ capacity" is false — with capacity 1, after one message was queued the
+    pump has already pulled and holds the second one -/
+theorem f13_witness : heldAfter 1 [.pull, .deliver 0, .append 0, .pull, .deliver 1] = some 2 := by decide
+
+/-! ### wake-ups, disconnect, stop -/
+
+/-- no lost wake-up: a parked `receive()` with a non-empty queue has had its waiter resolved (its resume segment is enabled) -/
+theorem no_lost_wakeup (s : S) (h : Inv s) (hw : s.app = .waiting) (hq : s.q ≠ []) : s.popW = some true := by
+  have h1 := h.app_wait.mp hw
+  cases hp : s.popW with
+  | none => exact absurd hp h1
+  | some b =>
+    cases b with
+    | true => rfl
+    | false => exact absurd (h.pop_pending_empty hp) hq
+
+/-- a `receive()` whose waiter was resolved can always proceed -/
+theorem resolved_receive_enabled (s : S) (hw : s.app = .waiting) (hp : s.popW = some true) :
+    appSegs s ≠ [] ∧ ∀ seg ∈ appSegs s, seg.2.app = .idle ∨ seg.2.popW = some false := by
+  unfold appSegs
+  simp only [hw, hp, beq_self_eq_true, if_true]
+  refine ⟨by simp, ?_⟩
+  intro seg hseg
+  simp only [List.mem_append, List.mem_singleton, List.mem_cons, List.mem_nil_iff, or_false] at hseg
+  rcases hseg with hseg | hseg
+  · subst hseg
+    unfold popSeg
+    cases hq : s.q with
+    | nil => right; simp
+    | cons m rest => left; by_cases hpa : s.putWAttr = true <;> simp [hpa]
+  · subst hseg; left; rfl
+
+/-- the disconnect flag is monotone … -/
+theorem disc_monotone (s : S) (nx : Option Ev) (hd : s.disc = true) : ∀ seg ∈ segments s nx, seg.2.disc = true := by
+  intro seg hseg
+  unfold segments at hseg
+  simp only [List.mem_append] at hseg
+  rcases hseg with (hp | ha) | ho
+  · unfold pumpSegs at hp
+    cases hpc : s.pump with
+    | idle => simp only [hpc, List.mem_singleton] at hp; subst hp; exact hd
+    | pulling =>
+      simp only [hpc] at hp
+      split at hp
+      · simp only [List.mem_singleton] at hp; subst hp; exact hd
+      · simp at hp
+    | got m =>
+      simp only [hpc] at hp
+      split at hp
+      · simp only [List.mem_singleton] at hp; subst hp; simp [hd]
+      · simp only [List.mem_singleton] at hp; subst hp
+        unfold pumpEnqueue
+        by_cases hpa : s.popWAttr = true <;> simp [hpa, hd]
+    | holding m =>
+      simp only [hpc] at hp
+      split at hp
+      · split at hp
+        · simp only [List.mem_singleton] at hp; subst hp; exact hd
+        · simp only [List.mem_singleton] at hp; subst hp
+          unfold pumpEnqueue
+          by_cases hpa : s.popWAttr = true <;> simp [hpa, hd]
+      · simp at hp
+    | exited => simp [hpc] at hp
+  · unfold appSegs at ha
+    cases hap : s.app with
+    | idle =>
+      simp only [hap, List.mem_singleton] at ha; subst ha
+      unfold popSeg
+      cases hq : s.q with
+      | nil => exact hd
+      | cons m rest => by_cases hpa : s.putWAttr = true <;> simp [hpa, hd]
+    | waiting =>
+      simp only [hap, List.mem_append, List.mem_singleton] at ha
+      rcases ha with ha | ha
+      · split at ha
+        · simp only [List.mem_singleton] at ha; subst ha
+          unfold popSeg
+          cases hq : s.q with
+          | nil => exact hd
+          | cons m rest => by_cases hpa : s.putWAttr = true <;> simp [hpa, hd]
+        · split at ha
+          · simp only [List.mem_singleton] at ha; subst ha; exact hd
+          · simp at ha
+      · subst ha; exact hd
+  · unfold otherSegs at ho
+    simp only [List.mem_cons, List.mem_nil_iff, or_false] at ho
+    rcases ho with ho | ho <;> (subst ho; exact hd)
+
+/-- … it is set by the very pump segment that processes the disconnect event — before that event is queued, even when the
+    queue is full — and from then on every `_send` takes the `sendDisc` branch (WebSocketDisconnected) -/
+theorem disc_set_by_pump (s : S) (nx : Option Ev) (hp : s.pump = .got discMsg) :
+    ∀ seg ∈ pumpSegs s nx, seg.2.disc = true := by
+  intro seg hseg
+  unfold pumpSegs at hseg
+  simp only [hp] at hseg
+  split at hseg
+  · simp only [List.mem_singleton] at hseg; subst hseg; simp
+  · simp only [List.mem_singleton] at hseg; subst hseg
+    unfold pumpEnqueue
+    by_cases hpa : s.popWAttr = true <;> simp [hpa]
+
+theorem send_reports_flag (s : S) (seg : List Ev × S) (h : seg ∈ otherSegs s) (hs : Ev.stop ∉ seg.1) :
+    seg.1 = [if s.disc then Ev.sendDisc else Ev.sendOk] ∧ seg.2 = s := by
+  unfold otherSegs at h
+  simp only [List.mem_cons, List.mem_nil_iff, or_false] at h
+  rcases h with h | h
+  · subst h; exact ⟨rfl, rfl⟩
+  · subst h; simp at hs
+
+/-- after `stop()` the pump has no further segment: nothing is left running, no further pull is made -/
+theorem stop_leaves_no_task (s : S) (nx : Option Ev) (seg : List Ev × S) (h : seg ∈ otherSegs s) (hs : Ev.stop ∈ seg.1) :
+    ∀ nx', pumpSegs seg.2 nx' = [] := by
+  unfold otherSegs at h
+  simp only [List.mem_cons, List.mem_nil_iff, or_false] at h
+  rcases h with h | h
+  · subst h
+    by_cases hd : s.disc = true <;> simp [hd] at hs
+  · subst h
+    intro nx'; simp [pumpSegs]
+
 end Wb
